@@ -3,7 +3,7 @@ import os, json
 import vlib, cases, pool_common as pc
 
 VALS = {"absent": None, "empty": "", "long": "L" * 1024, "punct": "a=b;c/d:e,f", "inner_space": "abc def",
-        "two": "first-1\x01second-2"}
+        "two": "first-1\x01second-2", "uspace_edge": "abc\u00a0"}
 
 
 def script_for(i, c):
@@ -76,8 +76,10 @@ def process_level(sd):
     out = []
     k = 0
     for hdr in ("default", "custom"):
-        for rval in ("absent", "punct"):
+        for rval in ("absent", "punct", "uspace_edge"):
             for path in ("proxied", "plugin401", "toolarge413", "limited429"):
+                if rval == "uspace_edge" and path != "proxied":
+                    continue
                 k += 1
                 c = {"reqOn": True, "traceOn": True, "hdr": hdr, "rval": rval, "tval": "absent", "path": path, "plugin": False, "bown": False}
                 rname = "X-Correlation-ID" if hdr == "custom" else "X-Request-ID"
@@ -114,6 +116,9 @@ def process_level(sd):
                     sent = {}
                     if rval == "punct":
                         sent[rname] = VALS["punct"]
+                    if rval == "uspace_edge":
+                        # the UTF-8 bytes on the wire; http.client / http.server show header bytes as latin-1 text
+                        sent[rname] = VALS["uspace_edge"].encode("utf-8").decode("latin-1")
                     if path == "limited429":
                         ask()
                         seen.pop("p%d" % k, None)
